@@ -108,7 +108,10 @@ def case_fn(case):
     mode = case['mode']
     tag = '%s/%s' % (mode, 'ktable' if isk else 'xsec')
     fine = bool(case.get('fine'))
-    for (tn, T), (pn, P) in itertools.product(axis_points(Tg, fine=fine), axis_points(Pg, log=True, fine=fine)):
+    lattice = list(itertools.product(axis_points(Tg, fine=fine), axis_points(Pg, log=True, fine=fine)))
+    # the same object answers the whole lattice forwards and then backwards: an answer must not depend on the
+    # queries that came before it
+    for (tn, T), (pn, P) in lattice + lattice[::-1]:
         where = 'T=%s,P=%s' % (tn, pn)
         try:
             got = op.opacity(T, P, wreq)
